@@ -133,7 +133,7 @@ def run_extra(ctx, name, v):
 
 
 def run(ctx, rep):
-    n = ctx.n(24, 1500)
+    n = ctx.n(24, 400)
     cases = [{"seed": f"C13:{ctx.seed}:{i}", "version": v} for i in range(n) for v in VERSIONS]
     for name, v, ref, got, pr in common.pmap(lambda nv: run_extra(ctx, *nv), [(nm, v) for nm in EXTRA for v in VERSIONS]):
         if common.crash_signature(pr):
